@@ -89,7 +89,7 @@ def check_effects(case):
     else:
         changed = not (res == c)
     nt = len(atoms) >= 2 and changed
-    return {'nt': nt or (len(atoms) == 1 and changed), 'cls': cls | gen.classify(nl),
+    return {'nt': nt or (len(atoms) == 1 and changed), 'cls': cls | gen.classify(nl) | simp.netlist_twin_classes(nl),
             'key': [nl['inputs'], nl['gates'], nl['outputs'], spec],
             'sample': {'bench': build.bench_text(nl), 'pipeline': spec}}
 
